@@ -1163,6 +1163,14 @@ class StateEngine(object):
             terminated = branch_results.get("terminated")
             has_terminated = terminated or parent_terminated
 
+            """
+            The branch metadata of an execution that has ended is only retained
+            to recognise the late events of its branches, whichever Map or
+            Parallel state (or attempt of one) they belong to.
+            """
+            if self.branch_metadata[execution_arn].execution_ended:
+                has_terminated = True
+
             if has_terminated:
                 #print("*** has_terminated ***")
                 iterator_range = branch_info.get(
